@@ -80,7 +80,7 @@ class SpecFn:
     def __init__(self, name, params, ret, cases, doc=""):
         self.name, self.ret, self.cases, self.doc = name, ret, cases, doc
         self.params = []
-        for p in params.split(","):
+        for p in re.split(r",(?![^\[]*\])", params):
             nm, ty = p.strip().split(":")
             self.params.append((nm.strip(), ty.strip()))
         SPECFNS[name] = self
